@@ -146,3 +146,52 @@ pub fn lex_raw(req: &Value) -> Value {
     let events = if req["events"].as_bool().unwrap_or(false) { crate::hooks::take() } else { crate::hooks::take(); vec![] };
     json!({"toks": toks, "err": err, "events": events})
 }
+
+/// {src, mode, start} -> {"ok": true} | {"err": {...}}; no tree projection, run on a thread with an 8 MiB stack
+/// (what a user's main thread has), so that only the library's own stack use is measured.  elapsed_us is reported.
+pub fn parse_ok(req: &Value) -> Value {
+    let src = req["src"].as_str().unwrap().to_string();
+    let start = TextSize::from(req["start"].as_u64().unwrap_or(0) as u32);
+    let mode = mode_of(req);
+    let lex_only = req["lex_only"].as_bool().unwrap_or(false);
+    let h = std::thread::Builder::new()
+        .stack_size(8 * 1024 * 1024)
+        .spawn(move || {
+            let t = std::time::Instant::now();
+            let r = if lex_only {
+                let mut n = 0usize;
+                let mut err = Value::Null;
+                for r in lexer::lex_starts_at(&src, mode, start) {
+                    match r {
+                        Ok(_) => n += 1,
+                        Err(e) => {
+                            err = json!({"kind": debug_to_json(&format!("{:?}", e.error)), "offset": u32::from(e.location)});
+                            break;
+                        }
+                    }
+                }
+                if err.is_null() { json!({"ok": true, "tokens": n}) } else { json!({"err": err, "tokens": n}) }
+            } else {
+                match rustpython_parser::parse_starts_at(&src, mode, "<verif>", start) {
+                    Ok(m) => {
+                        // dropping a deep tree is part of what a user does
+                        drop(m);
+                        json!({"ok": true})
+                    }
+                    Err(e) => json!({"err": err_json(&e)}),
+                }
+            };
+            (r, t.elapsed().as_micros() as u64)
+        })
+        .unwrap();
+    match h.join() {
+        Ok((mut r, us)) => {
+            r["elapsed_us"] = json!(us);
+            r
+        }
+        Err(p) => {
+            let msg = p.downcast_ref::<String>().cloned().or_else(|| p.downcast_ref::<&str>().map(|s| s.to_string())).unwrap_or_default();
+            json!({"panic": msg.chars().take(300).collect::<String>()})
+        }
+    }
+}
